@@ -48,6 +48,7 @@ type Replay struct {
 	Violation Violation  `json:"violation"`
 	Digest    string     `json:"digest"`
 	OrigLen   int        `json:"original_tape_len"`
+	SeedOnly  bool       `json:"seed_only,omitempty"` // no tape recorded (the process died): replay re-runs the seed
 	Log       []string   `json:"event_log_tail,omitempty"`
 }
 
@@ -137,6 +138,10 @@ func WorkerMain(t *testing.T, e Engine) {
 			break
 		}
 		seed := DeriveSeed(base, e.Name()+"/"+prop+"/"+tier, uint64(k))
+		// breadcrumb: if the system under test panics and takes the process down, the driver still
+		// knows which seed to report
+		cur, _ := json.Marshal(Replay{Engine: e.Name(), Property: prop, Tier: tier, Seed: seed, SeedOnly: true})
+		os.WriteFile(filepath.Join(out, fmt.Sprintf("current-%d.json", w)), cur, 0o644)
 		tape := NewTape(seed)
 		res := e.Run(t, prop, tier, tape, dump)
 		res.Seed = seed
@@ -381,6 +386,9 @@ func replayFile(t *testing.T, e Engine, path, out string) {
 		return
 	}
 	tp := ReplayTape(rep.Tape, true)
+	if rep.SeedOnly {
+		tp = NewTape(rep.Seed)
+	}
 	res := e.Run(t, rep.Property, rep.Tier, tp, true)
 	status := map[string]any{"digest": res.Digest, "expected_digest": rep.Digest, "diverged": tp.Diverged}
 	if res.Violation == nil {
